@@ -19,7 +19,7 @@
 // Compile-time note: `tapkee::embed` instantiates all 20 methods (2 min under ASan+UBSan).  By default this harness
 // therefore repeats the body of tapkee::embed / DynamicImplementation::embedUsing for the four methods it needs
 // (parameters.check, merge(defaults), base constructor, validate(), embed()); with -DC11_FULL_API the very same cases go
-// through tapkee::with(..).withDistance(..).embedRange(..) (thorough tier: both builds must print identical lines).
+// through tapkee::with(..).withDistance(..).embedRange(..) (a sample of every family in quick, 250 cases in thorough: both builds must print identical lines).
 #ifdef C11_FULL_API
 #include <tapkee/tapkee.hpp>
 #else
@@ -355,6 +355,7 @@ int main()
     {
         if (line.empty())
             continue;
+        vh::case_alarm(300); // a hang is an observation (abort:timeout) for exactly this case
         auto f = vh::fields(line);
         std::string out;
         if (line.rfind("sel ", 0) == 0)
